@@ -170,7 +170,11 @@ def oracle(op, out, backend):
     else:
         exp_off = D.db_offset_at(D.zname(zr), u1, YMAX)
         exp_w = u1 + exp_off
-    in_range = D.MIN_US <= exp_w <= D.MAX_US and (mode != "roundtrip" or D.MIN_US <= w + _total((h, mi, s, us)) <= D.MAX_US)
+    # "representable": the start, the result and their readings on the UTC clock all lie in years 1..9999
+    # (the implementation computes on the UTC clock with native datetimes)
+    in_range = (D.MIN_US <= exp_w <= D.MAX_US and D.MIN_US <= w - src_off <= D.MAX_US and D.MIN_US <= u1 <= D.MAX_US
+                and (mode != "roundtrip" or (D.MIN_US <= w + _total((h, mi, s, us)) <= D.MAX_US
+                                             and D.MIN_US <= w - src_off + _total((h, mi, s, us)) <= D.MAX_US)))
     if not in_range:
         if out.startswith("err OverflowError") or out.startswith("err ValueError"):
             return None
